@@ -89,8 +89,8 @@ def _case(draw):
     drop = {k: [j for j in v if not (zero_exc and j == 1)] for k, v in drop.items()}
     drop = {k: v for k, v in drop.items() if v}
     if len(masters) >= 2 and not zero_exc and F.chance(draw, 1, 5):
-        # one non-default master without any kerning: every pair is an implicit 0 there
-        drop[str(draw(st.integers(1, len(masters) - 1)))] = list(range(len(kerning)))
+        # one master without any kerning: every pair is an implicit 0 there
+        drop[str(draw(st.integers(0, len(masters) - 1)))] = list(range(len(kerning)))  # the default source too
     if drop:
         fam["drop_kerning"] = drop
     if shape in ("two", "three") and draw(st.sampled_from([True, False, False])):
